@@ -206,6 +206,27 @@ impl TypeCtx {
     }
 }
 
+/// Can the end of these statements not be reached? Syntactic and conservative: `false` means
+/// "might be reached".
+fn diverges(statements: &[Statement]) -> bool {
+    match statements.last() {
+        Some(Statement::Ret { .. }) | Some(Statement::Unreachable(_)) => true,
+        Some(Statement::Block { statements, .. }) => diverges(statements),
+        Some(Statement::StatementExpression { value, .. }) => match value {
+            Expression::If { branches, .. } => {
+                branches.last().map(|b| b.condition.is_none()).unwrap_or(false)
+                    && branches.iter().all(|b| diverges(&b.body))
+            }
+            Expression::Case { branches, fall_through, .. } => {
+                branches.iter().all(|b| diverges(&b.body))
+                    && fall_through.as_ref().map(|f| diverges(f)).unwrap_or(true)
+            }
+            _ => false,
+        },
+        _ => false,
+    }
+}
+
 impl TypeChecker {
     fn new(variables: &[Var], namespace_to_file: &HashMap<NamespaceID, FileOrLib>) -> Self {
         let mut res = Self {
@@ -1007,9 +1028,14 @@ impl TypeChecker {
                         value
                     }
                 };
+                // Where the end of a branch can be reached nothing is yielded there - what the other
+                // branches return is not the value of the expression.
+                let never_yields = branches.iter().all(|branch| diverges(&branch.body));
                 with_ret(
                     ret,
-                    value.or(ret).unwrap_or_else(|| self.push_type(Type::Void)),
+                    value
+                        .or(if never_yields { ret } else { None })
+                        .unwrap_or_else(|| self.push_type(Type::Void)),
                 )
             }
 
@@ -1054,9 +1080,13 @@ impl TypeChecker {
                 if value.is_some() && valueless {
                     value = Some(self.push_type(Type::Void));
                 }
+                let never_yields = branches.iter().all(|branch| diverges(&branch.body))
+                    && fall_through.as_ref().map(|f| diverges(f)).unwrap_or(true);
                 with_ret(
                     ret,
-                    value.or(ret).unwrap_or_else(|| self.push_type(Type::Void)),
+                    value
+                        .or(if never_yields { ret } else { None })
+                        .unwrap_or_else(|| self.push_type(Type::Void)),
                 )
             }
 
@@ -1076,6 +1106,16 @@ impl TypeChecker {
                     let void = Some(self.push_type(Type::Void));
                     self.unify_option(*span, ctx, actual_ret, void)?
                 } else {
+                    // A function that returns a value somewhere returns one on every path.
+                    let returns_a_value = actual_ret.map(|x| !self.is_void(x)).unwrap_or(false);
+                    if returns_a_value && implicit_ret.is_none() && !diverges(body) {
+                        return err_type_error!(
+                            self,
+                            *span,
+                            TypeError::Exotic,
+                            "The function returns a value - but it can also reach its end without one"
+                        );
+                    }
                     self.unify_option(*span, ctx, actual_ret, implicit_ret)
                         .help_no_span("The implicit and explicit return types differ".into())?
                 };
